@@ -131,9 +131,12 @@ def _worker(args):
         out["violations"].append({"kind": "state:" + name, "detail": "clause %s false at %s" % (name, pos),
                                   "replay": replay_of(k, state=s, position=pos)})
     if prop in ("C01", "C04"):
-        # hypothesis of the C01/C04 theorems: the compiled initial state of every episode is fresh (C04: fresh2)
+        # hypotheses of the C01/C04 theorems on the compiled initial state of every episode: fresh (C04: fresh2); for the
+        # unconditional (flex) theorems also fresh2, the store clauses of wfs_b and nodep - reported when the instance
+        # has unordered machine post-buffers (the class those theorems speak about)
         clause = "fresh" if prop == "C01" else "fresh2"
-        nfresh = 0
+        flex_hyps = ["placement", "loc", "capacity", "flags", "fresh2", "nodep"]
+        nfresh = nflex = 0
         for e in eps:
             if e.first < e.last:
                 r0 = tracer.records[e.first]
@@ -144,7 +147,20 @@ def _worker(args):
                     out["violations"].append({"kind": "state:" + clause, "detail": "the initial state of the episode is not "
                                               "%s (hypothesis of the %s theorems)" % (clause, prop),
                                               "replay": replay_of(e.first, state=r0.pre)})
+                try:
+                    flex = all("FLEX" in str(m.postbuffer.type).upper() for m in r0.codec.instance.machines)
+                except Exception:  # noqa
+                    flex = False
+                if flex:
+                    nflex += 1
+                    for hname in flex_hyps:
+                        if bits[trace.CLAUSES.index(hname)] != "1":
+                            out["violations"].append({"kind": "state:" + hname, "detail": "the initial state of an episode on "
+                                                      "an instance with unordered post-buffers does not satisfy %s "
+                                                      "(hypothesis of the %s_*_flex theorems)" % (hname, prop),
+                                                      "replay": replay_of(e.first, state=r0.pre)})
         out["fresh_initial_states"] = nfresh
+        out["flex_episodes"] = nflex
     if want_events:
         st = {}
         ev = trace.monitor_events(tracer.records, drv, which=set(EVENT_CLAUSES.get(prop, [])) or {"-"}, stats=st)
@@ -343,6 +359,8 @@ def sm_check(ctx, n_quick=160, n_thorough=6000, custom_p=0.15, extra=None, worke
             tot[key] += o[key]
         tot["mw_records"] += o.get("mw_records", 0)
         tot["env_records"] += o.get("env_records", 0)
+        tot["flex_episodes"] += o.get("flex_episodes", 0)
+        tot["fresh_initial_states"] += o.get("fresh_initial_states", 0)
         ends.update(o["ends"])
         feats.update(o["features"])
         kinds.update(o["kinds"])
@@ -372,6 +390,9 @@ def sm_check(ctx, n_quick=160, n_thorough=6000, custom_p=0.15, extra=None, worke
         "episode_end_histogram": dict(ends), "input_distribution": dict(feats),
         "transition_kinds_seen": dict(kinds),
     })
+    if prop in ("C01", "C04"):
+        ctx.coverage["initial_states_checked_against_theorem_hypotheses"] = tot["fresh_initial_states"]
+        ctx.coverage["episodes_on_instances_with_unordered_post_buffers"] = tot["flex_episodes"]
     ctx.search_note = ("monitors (extracted theorem predicates) evaluated on %d implementation states and %d micro-events of "
                        "%d episodes; no concrete failing input" % (tot["states"], tot["events"], tot["episodes"]))
     return outs
